@@ -127,7 +127,7 @@ def make_resolver(ctx, unit, ops, skip=(), coroutines=False):
             if target is None or target.is_property() or \
                     target.kind not in (("sync", "coroutine") if coroutines else ("sync",)):
                 continue
-            if target.qualname.rsplit(".", 1)[-1] in skip:
+            if target.qualname.rsplit(".", 1)[-1] in skip or ctx.pkg.canonical(target).rsplit(".", 1)[-1] in skip:
                 continue
             names = target.param_names()
             bound = {}
